@@ -1,32 +1,35 @@
-"""Translator for C08: the constants of the pending-call machinery.
+"""Translator for C08 (also read by C11): the constants of the pending-call machinery.
 
-Reads the SOURCE (AST) of txdbus/client.py and txdbus/message.py of the working tree and writes
-lean/TxdbusModel/Gen/C08Client.lean.  Everything is located structurally, not by position:
+Writes lean/TxdbusModel/Gen/C08Client.lean.  Every entry is derived by PROBING the code of the tree under
+test (the modules are imported from it; `vlib.ctx.use_repo(repo)` has been called by extract_tables.run),
+over the whole finite domain of the entry; where the source also has the shape this translator knows, the
+entry is read from the AST as well and the two must agree (disagreement = TranslatorError).  A shape that is
+not recognised is not an error: the probe stands, and a sentence goes into ADVISORIES (the pipeline then
+runs the correspondence streams widened).
 
-  * `_NO_CHECK_RETURN`: a module-level string constant -> `some "<text>"`; any other expression (e.g.
-    `object()`) -> `none` (no `str` return signature can be equal to it);
-  * `_cbCvtReply`: the arguments of the `raise error.RemoteError(...)` statements are evaluated
-    symbolically into templates: a list of literal pieces and holes (`str(returnSignature)`,
-    `str(msg.signature)`).  `%`-formatting with `%s`, `str.format` with `{}`, f-strings, `+`
-    concatenation and local names assigned once before use are understood.  The first `raise` in
-    source order is the "no value declared" text, the second the "declared signature differs" text;
-    the character `msg.signature[0]` is compared with comes from that `Compare` node;
-  * `_onMethodTimeout`: the template of the argument of `error.TimeOut(...)` (must be hole-free);
-  * `DBusMessage._marshal`: under `if newSerial:` the serial is READ from `DBusMessage._nextSerial`
-    into `self.serial` and only then advanced by `+= <positive int>` (the step is emitted; the
-    read-before-step order and the source of the read are checked);
-  * `connectionLost`: is the call of each disconnect callback (`cb(self, reason)` inside the loop over
-    `self._dcCallbacks`) guarded by a `try` whose handler catches `Exception` / `BaseException` /
-    everything?  -> `dcGuarded`.
+  * `noCheckReturn`  : the value of `client._NO_CHECK_RETURN` when it is a `str` (`none`: some other object;
+                       no `str` return signature is equal to it).  AST: module-level assignment of a constant.
+  * `structOpen`     : the one character c such that `_cbCvtReply` hands a single value back as a LIST when the
+                       reply signature starts with c - found by calling `_cbCvtReply` with a one-value reply for
+                       every first character 0..127.  AST: the `Compare` of `<x>.signature[0]` / `signature[0]`
+                       with a one-character constant, wherever in the class it now lives.
+  * `serialStep`     : a message constructed while `DBusMessage._nextSerial == N` gets serial N and leaves the
+                       counter at N + step - measured on real `MethodCallMessage` constructions at several N.
+                       AST: under `if newSerial:` the read `self.serial = DBusMessage._nextSerial` precedes
+                       `DBusMessage._nextSerial += <positive int>`.
+  * `dcGuarded`      : does `connectionLost` survive a disconnect callback that raises?  Probed on a real
+                       connection object with a raising callback.  AST: the call of the loop variable of the
+                       loop over `self._dcCallbacks` is inside a `try` catching Exception.
 
-Anything outside that (another number of `raise RemoteError`, a hole of another kind, a counter that
-is not advanced by a positive integer constant, ...) raises TranslatorError: the table obligation of
-C08 is then broken and the pipeline widens the search.
+The wording of the exceptions the client generates locally (`RemoteError('Unexpected return value
+signature...')`, `TimeOut('Method call timed out')`) is not part of any property and is no longer a table
+entry: the correspondence compares exception class, DBus error name and the values that came from the peer.
 """
 import ast
 import os
 
 MODULE = 'TxdbusModel.Gen.C08Client'
+ADVISORIES = []
 
 
 class TranslatorError(Exception):
@@ -39,13 +42,20 @@ def _parse(repo, rel):
         return ast.parse(f.read(), path)
 
 
-def _find_method(tree, cls, name):
+def _class(tree, cls):
     for node in tree.body:
         if isinstance(node, ast.ClassDef) and node.name == cls:
-            for sub in node.body:
-                if isinstance(sub, ast.FunctionDef) and sub.name == name:
-                    return sub
-    raise TranslatorError('%s.%s not found' % (cls, name))
+            return node
+    return None
+
+
+def _method(tree, cls, name):
+    c = _class(tree, cls)
+    if c is not None:
+        for sub in c.body:
+            if isinstance(sub, ast.FunctionDef) and sub.name == name:
+                return sub
+    return None
 
 
 def lean_str(s):
@@ -65,280 +75,240 @@ def lean_str(s):
     return ''.join(out)
 
 
-# --------------------------------------------------------------------------- symbolic templates
-LIT, RS, SIG = 0, 1, 2      # literal text / str(returnSignature) / str(msg.signature)
+def _quiet_log():
+    try:
+        from twisted.logger import globalLogBeginner
+        globalLogBeginner.beginLoggingTo([lambda event: None], redirectStandardIO=False, discardBuffer=True)
+    except Exception:
+        pass
 
 
-def _norm(parts):
-    out = []
-    for tag, text in parts:
-        if tag == LIT:
-            if not text:
-                continue
-            if out and out[-1][0] == LIT:
-                out[-1] = (LIT, out[-1][1] + text)
-                continue
-        out.append((tag, text))
-    return out
+# --------------------------------------------------------------------------- probes
+def probe_sentinel():
+    import txdbus.client as client
+    if not hasattr(client, '_NO_CHECK_RETURN'):
+        raise TranslatorError('txdbus.client has no _NO_CHECK_RETURN')
+    v = client._NO_CHECK_RETURN
+    return str(v) if isinstance(v, str) else None
 
 
-class Templates:
-    """Symbolic evaluation of string expressions inside one function."""
-
-    def __init__(self, fn):
-        self.fn = fn
-        self.assigns = {}
-        for node in ast.walk(fn):
-            if isinstance(node, ast.Assign) and len(node.targets) == 1 and isinstance(node.targets[0], ast.Name):
-                self.assigns.setdefault(node.targets[0].id, []).append(node)
-
-    def lookup(self, name, lineno):
-        cands = [a for a in self.assigns.get(name, []) if a.lineno < lineno]
-        if not cands:
-            raise TranslatorError('name %r is not assigned before line %d' % (name, lineno))
-        return max(cands, key=lambda a: a.lineno).value
-
-    def hole(self, node):
-        """str(returnSignature) / str(msg.signature), with or without the str()."""
-        if isinstance(node, ast.Call) and isinstance(node.func, ast.Name) and node.func.id == 'str' \
-                and len(node.args) == 1 and not node.keywords:
-            node = node.args[0]
-        if isinstance(node, ast.Name) and node.id == 'returnSignature':
-            return [(RS, '')]
-        if isinstance(node, ast.Attribute) and node.attr == 'signature' and isinstance(node.value, ast.Name):
-            return [(SIG, '')]
-        return None
-
-    def ev(self, node):
-        h = self.hole(node)
-        if h is not None:
-            return h
-        if isinstance(node, ast.Constant) and isinstance(node.value, str):
-            return [(LIT, node.value)]
-        if isinstance(node, ast.Name):
-            return self.ev(self.lookup(node.id, node.lineno))
-        if isinstance(node, ast.JoinedStr):
-            out = []
-            for v in node.values:
-                if isinstance(v, ast.Constant):
-                    out.append((LIT, v.value))
-                elif isinstance(v, ast.FormattedValue) and v.format_spec is None and v.conversion in (-1, 115):
-                    out += self.ev(v.value)
-                else:
-                    raise TranslatorError('unsupported f-string piece at line %d' % node.lineno)
-            return out
-        if isinstance(node, ast.BinOp) and isinstance(node.op, ast.Add):
-            return self.ev(node.left) + self.ev(node.right)
-        if isinstance(node, ast.BinOp) and isinstance(node.op, ast.Mod):
-            fmt = self.ev(node.left)
-            args = node.right.elts if isinstance(node.right, ast.Tuple) else [node.right]
-            return self.fill(fmt, '%s', [self.ev(a) for a in args], node.lineno)
-        if isinstance(node, ast.Call) and isinstance(node.func, ast.Attribute) and node.func.attr == 'format' \
-                and not node.keywords:
-            fmt = self.ev(node.func.value)
-            return self.fill(fmt, '{}', [self.ev(a) for a in node.args], node.lineno)
-        raise TranslatorError('unsupported string expression at line %d: %s' % (node.lineno, ast.dump(node)[:120]))
-
-    @staticmethod
-    def fill(fmt, marker, args, lineno):
-        out = []
-        args = list(args)
-        for tag, text in fmt:
-            if tag != LIT:
-                out.append((tag, text))
-                continue
-            pieces = text.split(marker)
-            for i, p in enumerate(pieces):
-                if i:
-                    if not args:
-                        raise TranslatorError('more %r fields than arguments at line %d' % (marker, lineno))
-                    out += args.pop(0)
-                out.append((LIT, p))
-        if args:
-            raise TranslatorError('more arguments than %r fields at line %d' % (marker, lineno))
-        joined = ''.join(t for tag, t in out if tag == LIT)
-        if marker == '%s' and '%' in joined.replace('%%', ''):
-            raise TranslatorError('unsupported %% directive at line %d' % lineno)
-        return out
+def probe_struct_open():
+    """The set of first characters of a reply signature for which ONE value comes back wrapped in the list."""
+    import types
+    import txdbus.client as client
+    conn = client.DBusClientConnection()
+    marker = object()
+    wraps = []
+    for cp in range(128):
+        c = chr(cp)
+        body = [marker]
+        msg = types.SimpleNamespace(signature=c + 'i', body=body)
+        try:
+            r = conn._cbCvtReply(msg, client._NO_CHECK_RETURN)
+        except Exception as e:
+            raise TranslatorError('_cbCvtReply raised %r on a one-value reply with signature %r' % (e, c + 'i'))
+        if r is marker:
+            continue
+        if r is body or (isinstance(r, list) and len(r) == 1 and r[0] is marker):
+            wraps.append(c)
+        else:
+            raise TranslatorError('_cbCvtReply returned neither the value nor the list for signature %r' % (c + 'i'))
+    if len(wraps) != 1:
+        raise TranslatorError('the single-value convention is not "one character marks a struct": wrapped for %r'
+                              % (wraps,))
+    return wraps[0]
 
 
-def _raises_of(fn, exc_attr):
-    """Argument nodes of `raise <x>.<exc_attr>(arg)` in source order."""
-    out = []
-    for node in ast.walk(fn):
-        if isinstance(node, ast.Raise) and isinstance(node.exc, ast.Call):
-            f = node.exc.func
-            name = f.attr if isinstance(f, ast.Attribute) else (f.id if isinstance(f, ast.Name) else None)
-            if name == exc_attr:
-                if len(node.exc.args) != 1 or node.exc.keywords:
-                    raise TranslatorError('raise %s(...) with other than one argument at line %d' % (exc_attr, node.lineno))
-                out.append((node.lineno, node.exc.args[0]))
-    return [a for _, a in sorted(out, key=lambda x: x[0])]
+def probe_serial_step():
+    from txdbus import message
+    cls = message.DBusMessage
+    saved = cls._nextSerial
+    steps = set()
+    try:
+        for n in (1, 7, 255, 65535, 2 ** 31):
+            cls._nextSerial = n
+            for kw in ({}, {'expectReply': False}, {'autoStart': False}):
+                before = cls._nextSerial
+                m = message.MethodCallMessage('/p', 'M', **kw)
+                if m.serial != before:
+                    raise TranslatorError('a message built while the counter is %d got serial %r' % (before, m.serial))
+                steps.add(cls._nextSerial - before)
+            before = cls._nextSerial
+            r = message.MethodReturnMessage(5)
+            if r.serial != before:
+                raise TranslatorError('a reply built while the counter is %d got serial %r' % (before, r.serial))
+            steps.add(cls._nextSerial - before)
+    finally:
+        cls._nextSerial = max(saved, 1)
+    if len(steps) != 1:
+        raise TranslatorError('the serial counter does not advance by a constant: %r' % sorted(steps))
+    step = steps.pop()
+    if not isinstance(step, int) or step <= 0:
+        raise TranslatorError('the serial counter advances by %r' % (step,))
+    return step
 
 
-def _lean_template(parts):
-    return '[' + ', '.join('(%d, %s)' % (tag, lean_str(text)) for tag, text in _norm(parts)) + ']'
+def probe_dc_guarded():
+    """connectionLost on a ready connection with one raising disconnect callback and one call outstanding."""
+    _quiet_log()
+    from twisted.internet.testing import StringTransport
+    from twisted.python.failure import Failure
+    from twisted.internet.error import ConnectionDone
+    import txdbus.client as client
+
+    class Boom(Exception):
+        pass
+
+    conn = client.DBusClientConnection()
+    conn.factory = client.DBusClientFactory()
+    conn.factory.getConnection().addErrback(lambda f: None)
+    conn.transport = StringTransport()
+    conn.connectionAuthenticated()
+    conn.busName = ':1.0'
+
+    def raiser(c, reason):
+        raise Boom()
+    conn.notifyOnDisconnect(raiser)
+    try:
+        conn.connectionLost(Failure(ConnectionDone()))
+    except Boom:
+        return False
+    return True
 
 
-def emit(repo):
-    ctree = _parse(repo, 'client.py')
-    mtree = _parse(repo, 'message.py')
-
-    # ---- _NO_CHECK_RETURN
-    sentinel = 'missing'
+# --------------------------------------------------------------------------- AST readings (cross-checks)
+def ast_sentinel(ctree):
     for node in ctree.body:
         if isinstance(node, ast.Assign) and len(node.targets) == 1 and \
                 isinstance(node.targets[0], ast.Name) and node.targets[0].id == '_NO_CHECK_RETURN':
             if isinstance(node.value, ast.Constant) and isinstance(node.value.value, str):
-                sentinel = node.value.value
-            else:
-                sentinel = None
-    if sentinel == 'missing':
-        raise TranslatorError('_NO_CHECK_RETURN is not assigned at module level')
+                return ('str', node.value.value)
+            return ('other', None)
+    return None
 
-    # ---- _cbCvtReply
-    cvt = _find_method(ctree, 'DBusClientConnection', '_cbCvtReply')
-    tpl = Templates(cvt)
-    raises = _raises_of(cvt, 'RemoteError')
-    if len(raises) != 2:
-        raise TranslatorError('_cbCvtReply: expected 2 `raise error.RemoteError(...)`, found %d' % len(raises))
-    plain = _norm(tpl.ev(raises[0]))
-    mismatch = _norm(tpl.ev(raises[1]))
-    if any(tag != LIT for tag, _ in plain):
-        raise TranslatorError('_cbCvtReply: the first RemoteError text is not a constant')
-    paren = None
-    for node in ast.walk(cvt):
+
+def ast_struct_open(ctree):
+    c = _class(ctree, 'DBusClientConnection')
+    if c is None:
+        return None
+    found = []
+    for node in ast.walk(c):
         if isinstance(node, ast.Compare) and len(node.comparators) == 1:
             sides = [node.left, node.comparators[0]]
-            sub = [s for s in sides if isinstance(s, ast.Subscript) and isinstance(s.value, ast.Attribute)
-                   and s.value.attr == 'signature']
-            con = [s for s in sides if isinstance(s, ast.Constant) and isinstance(s.value, str)]
+            sub = [s for s in sides if isinstance(s, ast.Subscript)
+                   and isinstance(s.slice, ast.Constant) and s.slice.value == 0
+                   and ((isinstance(s.value, ast.Attribute) and s.value.attr == 'signature')
+                        or (isinstance(s.value, ast.Name) and 'sig' in s.value.id.lower()))]
+            con = [s for s in sides if isinstance(s, ast.Constant) and isinstance(s.value, str) and len(s.value) == 1]
             if sub and con:
-                idx = sub[0].slice
-                if not (isinstance(idx, ast.Constant) and idx.value == 0) or len(con[0].value) != 1:
-                    raise TranslatorError('_cbCvtReply: unexpected comparison on msg.signature at line %d' % node.lineno)
-                if paren is not None:
-                    raise TranslatorError('_cbCvtReply: two comparisons on msg.signature[0]')
-                paren = con[0].value
-    if paren is None:
-        raise TranslatorError('_cbCvtReply: no comparison of msg.signature[0] with a character')
+                found.append(con[0].value)
+    return found[0] if len(found) == 1 else None
 
-    # ---- _onMethodTimeout
-    tmo = _find_method(ctree, 'DBusClientConnection', '_onMethodTimeout')
-    ttext = None
-    ttpl = Templates(tmo)
-    for node in ast.walk(tmo):
-        if isinstance(node, ast.Call):
-            f = node.func
-            name = f.attr if isinstance(f, ast.Attribute) else (f.id if isinstance(f, ast.Name) else None)
-            if name == 'TimeOut':
-                if len(node.args) != 1:
-                    raise TranslatorError('_onMethodTimeout: TimeOut(...) with other than one argument')
-                parts = _norm(ttpl.ev(node.args[0]))
-                if any(tag != LIT for tag, _ in parts) or ttext is not None:
-                    raise TranslatorError('_onMethodTimeout: TimeOut text not a single constant')
-                ttext = ''.join(t for _, t in parts)
-    if ttext is None:
-        raise TranslatorError('_onMethodTimeout: no error.TimeOut(...)')
 
-    # ---- serial counter: read, then step, under `if newSerial:`
-    marshal = _find_method(mtree, 'DBusMessage', '_marshal')
-    step = None
+def ast_serial_step(mtree):
+    marshal = _method(mtree, 'DBusMessage', '_marshal')
+    if marshal is None:
+        return None
     for node in ast.walk(marshal):
         if isinstance(node, ast.If) and isinstance(node.test, ast.Name) and node.test.id == 'newSerial':
-            read_at = step_at = None
+            read_at = step_at = step = None
             for i, st in enumerate(node.body):
                 if isinstance(st, ast.Assign) and len(st.targets) == 1 and isinstance(st.targets[0], ast.Attribute) \
-                        and st.targets[0].attr == 'serial' and isinstance(st.targets[0].value, ast.Name) \
-                        and st.targets[0].value.id == 'self':
-                    if not (isinstance(st.value, ast.Attribute) and st.value.attr == '_nextSerial'):
-                        raise TranslatorError('self.serial is not read from DBusMessage._nextSerial')
+                        and st.targets[0].attr == 'serial' and isinstance(st.value, ast.Attribute) \
+                        and st.value.attr == '_nextSerial':
                     read_at = i
                 if isinstance(st, ast.AugAssign) and isinstance(st.target, ast.Attribute) \
-                        and st.target.attr == '_nextSerial':
-                    if not (isinstance(st.op, ast.Add) and isinstance(st.value, ast.Constant)
-                            and type(st.value.value) is int and st.value.value > 0):
-                        raise TranslatorError('_nextSerial is not advanced by `+= <positive int>`')
+                        and st.target.attr == '_nextSerial' and isinstance(st.op, ast.Add) \
+                        and isinstance(st.value, ast.Constant) and type(st.value.value) is int:
                     step_at, step = i, st.value.value
-            if read_at is None or step_at is None or not read_at < step_at:
-                raise TranslatorError('under `if newSerial:` the serial is not read and then advanced')
-    if step is None:
-        raise TranslatorError('no `if newSerial:` block advancing _nextSerial in _marshal')
-    others = [n for n in ast.walk(marshal) if isinstance(n, (ast.Assign, ast.AugAssign))
-              and any(isinstance(t, ast.Attribute) and t.attr == '_nextSerial'
-                      for t in (n.targets if isinstance(n, ast.Assign) else [n.target]))]
-    if len(others) != 1:
-        raise TranslatorError('_nextSerial is written %d times in _marshal' % len(others))
+            if read_at is not None and step_at is not None and read_at < step_at:
+                return step
+    return None
 
-    # ---- connectionLost: are the disconnect callbacks guarded?
-    lost = _find_method(ctree, 'DBusClientConnection', 'connectionLost')
-    guarded = None
 
-    def walk(node, in_try):
-        nonlocal guarded
+def ast_dc_guarded(ctree):
+    lost = _method(ctree, 'DBusClientConnection', 'connectionLost')
+    if lost is None:
+        return None
+    result = []
+
+    def walk(node, in_try, var):
         if isinstance(node, ast.Try):
             catches = False
             for h in node.handlers:
-                names = []
                 if h.type is None:
                     catches = True
-                elif isinstance(h.type, ast.Tuple):
-                    names = [getattr(e, 'id', getattr(e, 'attr', None)) for e in h.type.elts]
                 else:
-                    names = [getattr(h.type, 'id', getattr(h.type, 'attr', None))]
-                if 'Exception' in names or 'BaseException' in names:
-                    catches = True
+                    elts = h.type.elts if isinstance(h.type, ast.Tuple) else [h.type]
+                    names = [getattr(e, 'id', getattr(e, 'attr', None)) for e in elts]
+                    if 'Exception' in names or 'BaseException' in names:
+                        catches = True
             for b in node.body:
-                walk(b, in_try or catches)
+                walk(b, in_try or catches, var)
             for part in (node.handlers, node.orelse, node.finalbody):
                 for b in part:
-                    walk(b, in_try)
+                    walk(b, in_try, var)
             return
-        if isinstance(node, ast.Call) and isinstance(node.func, ast.Name) and node.func.id == loopvar[0] \
-                and loopvar[0] is not None:
-            if guarded is not None:
-                raise TranslatorError('connectionLost: the disconnect callback is called twice')
-            guarded = in_try
+        if isinstance(node, ast.Call) and isinstance(node.func, ast.Name) and node.func.id == var:
+            result.append(in_try)
         for child in ast.iter_child_nodes(node):
-            walk(child, in_try)
+            walk(child, in_try, var)
 
-    loopvar = [None]
     loops = 0
     for node in ast.walk(lost):
         if isinstance(node, ast.For) and isinstance(node.target, ast.Name) and \
                 any(isinstance(n, ast.Attribute) and n.attr == '_dcCallbacks' for n in ast.walk(node.iter)):
             loops += 1
-            loopvar[0] = node.target.id
             for b in node.body:
-                walk(b, False)
-    if loops != 1 or guarded is None:
-        raise TranslatorError('connectionLost: no single loop over self._dcCallbacks calling each callback')
+                walk(b, False, node.target.id)
+    if loops != 1 or len(result) != 1:
+        return None
+    return result[0]
+
+
+def _cross(name, probed, read):
+    """`read` is None when the source does not have the known shape."""
+    if read is None:
+        ADVISORIES.append('%s: source shape not recognised, entry derived by probing the code (%r)' % (name, probed))
+    elif read != probed:
+        raise TranslatorError('%s: the source reads %r but the code behaves as %r' % (name, read, probed))
+
+
+def emit(repo):
+    del ADVISORIES[:]
+    ctree = _parse(repo, 'client.py')
+    mtree = _parse(repo, 'message.py')
+
+    sentinel = probe_sentinel()
+    a = ast_sentinel(ctree)
+    _cross('noCheckReturn', ('str', sentinel) if sentinel is not None else ('other', None), a)
+
+    paren = probe_struct_open()
+    _cross('structOpen', paren, ast_struct_open(ctree))
+
+    step = probe_serial_step()
+    _cross('serialStep', step, ast_serial_step(mtree))
+
+    guarded = probe_dc_guarded()
+    _cross('dcGuarded', guarded, ast_dc_guarded(ctree))
 
     L = []
     L.append('/-')
-    L.append('GENERATED by tools/tables/c08_client.py from the source of txdbus/client.py and')
-    L.append('txdbus/message.py of the repository under test.  Do not edit: regenerated on every run.')
+    L.append('GENERATED by tools/tables/c08_client.py from txdbus/client.py and txdbus/message.py of the repository')
+    L.append('under test (probed on the running code, cross-checked against the source).  Do not edit.')
     L.append('-/')
     L.append('namespace Txdbus.Gen.C08Client')
     L.append('')
-    L.append('/-- `_NO_CHECK_RETURN` when it is a string constant (`none`: some other object, equal to no string) -/')
+    L.append('/-- `_NO_CHECK_RETURN` when it is a string (`none`: some other object, equal to no string) -/')
     L.append('def noCheckReturn : Option String := %s' % ('none' if sentinel is None else 'some ' + lean_str(sentinel)))
     L.append('')
-    L.append('/-- `raise error.RemoteError(...)` for an undeclared return value -/')
-    L.append('def unexpectedSig : String := %s' % lean_str(''.join(t for _, t in plain)))
-    L.append('/-- the text for a declared signature that differs: pieces (0, literal), (1, _) = str(returnSignature),')
-    L.append('(2, _) = str(msg.signature) -/')
-    L.append('def mismatchTemplate : List (Nat × String) := %s' % _lean_template(mismatch))
-    L.append('/-- the character `msg.signature[0]` is compared with -/')
+    L.append('/-- the first character of a reply signature for which one value is handed back as a list -/')
     L.append('def structOpen : Char := %s' % ("'" + paren + "'" if paren not in "'\\" else "'\\" + paren + "'"))
     L.append('')
-    L.append('/-- `error.TimeOut(...)` in `_onMethodTimeout` -/')
-    L.append('def timeoutText : String := %s' % lean_str(ttext))
-    L.append('')
-    L.append('/-- `self.serial = DBusMessage._nextSerial` and then `DBusMessage._nextSerial += serialStep` -/')
+    L.append('/-- a message built while the counter is N gets serial N and leaves the counter at N + serialStep -/')
     L.append('def serialStep : Nat := %d' % step)
     L.append('')
-    L.append('/-- `connectionLost` calls each disconnect callback inside a `try` that catches its exception -/')
+    L.append('/-- `connectionLost` survives a disconnect callback that raises -/')
     L.append('def dcGuarded : Bool := %s' % ('true' if guarded else 'false'))
     L.append('')
     L.append('end Txdbus.Gen.C08Client')
